@@ -627,4 +627,4 @@ type Comment struct {
 }
 
 func (c *Comment) Pos() Pos { return c.Hash }
-func (c *Comment) End() Pos { return c.Hash.shift(len(c.Text)) }
+func (c *Comment) End() Pos { return c.Hash.shift(len([]rune(c.Text))) }
